@@ -94,6 +94,8 @@ def c18_add(w):
     S, T = build_schema(St, V), build_schema(Tt, V)
     T_before = snap(T)
     root = build_path(R, V)
+    if w.get("root_as") == "prim":
+        root = dec(R["parts"][0]["$prim"])          # a one-part root given as the bare key / index (`root / path` accepts it)
     try:
         S.add_schema(T, root)
     except Exception as e:
@@ -200,6 +202,12 @@ def c18_gen(r, tier):
         S = G.gen_schema(r, d, n=r.randint(0, 2), well_typed=True)
         R2 = {"parts": [{"$prim": r.choice(["q", "a", 0])}] + ([{"$prim": "z"}] if r.random() < 0.3 else [])}
         yield {"S": S, "T": T, "R": R, "R2": R2, "doc": enc(d)}
+        if len(R["parts"]) == 1 and r.random() < 0.5:
+            yield {"S": S, "T": T, "R": R, "R2": R2, "doc": enc(d), "root_as": "prim"}
+    for key in ("top", "ab", "", 0, 3, 1.5, True):
+        d = {key: {"a": 1, "b": ["s"]}, "x": "ok"} if not isinstance(key, int) or isinstance(key, bool) else [{"a": 1}, 2, 3, {"a": "no"}]
+        T = {"rules": [{"path": {"parts": [{"$prim": "a"}]}, "cond": G.leaf("ValueDataType", "equal_to", {"$type": "int"})}]}
+        yield {"S": {"rules": []}, "T": T, "R": {"parts": [{"$prim": key}]}, "R2": {"parts": [{"$prim": "q"}]}, "doc": enc(d), "root_as": "prim"}
 
 
 # =========================================================================== C19
@@ -433,6 +441,8 @@ class _HTMLCheck(html.parser.HTMLParser):
     def handle_starttag(self, tag, attrs):
         self.tags.append(tag)
         self.stack.append(tag)
+        self.attrs = getattr(self, "attrs", [])
+        self.attrs += [(tag, k, v) for k, v in attrs]
 
     def handle_endtag(self, tag):
         if not self.stack or self.stack[-1] != tag:
@@ -452,6 +462,7 @@ def _tree_nodes(tree):
     return out
 
 
+ALLOWED_ATTRS = {"class", "id", "href", "title", "data-node-path"}
 ALLOWED_TAGS = {"div", "section", "span", "a", "p", "code", "h1", "h2", "h3", "h4", "h5", "h6", "h7", "h8"}
 
 
@@ -530,6 +541,10 @@ def c20_tree(w):
         bad = [t for t in chk.tags if t not in ALLOWED_TAGS]
         if bad:
             return Fail("html-unescaped-tag", f"schema text produced tags {bad[:3]}", out[:400])
+        # schema text inside an attribute value must not end the value: only the writer's own attributes may occur
+        bad = [(t, k) for t, k, v in getattr(chk, "attrs", []) if k not in ALLOWED_ATTRS]
+        if bad:
+            return Fail("html-unescaped-attribute", f"schema text broke out of an attribute value: unexpected attributes {bad[:3]}", out[:400])
         for m in MARK:
             if ("<" in m or "&" in m) and m in out:
                 return Fail("html-unescaped-text", f"marker {m!r} appears unescaped in HTML", out[:400])
